@@ -51,11 +51,15 @@ pub struct CorpusCfg {
     /// when the AST-based variable typing is undefined for a query the frontend accepted, take the
     /// variable types from the IR instead (only for checks whose oracle does not depend on them)
     pub ir_var_types_fallback: bool,
+    /// further finite spaces driven with the same callbacks after this one (label, configuration)
+    pub extra: Vec<(&'static str, CorpusCfg)>,
+    /// restrict this space to the named datasets of the universe (None = all)
+    pub only_datasets: Option<Vec<&'static str>>,
 }
 
 impl CorpusCfg {
     pub fn new(k: usize) -> Self {
-        CorpusCfg { k, gen: GenCfg::default(), wide_args: false, args_cap_per_var: 2, max_arg_maps: 8, keep: None, seeds: qgen::skeletons(), ir_var_types_fallback: false }
+        CorpusCfg { k, gen: GenCfg::default(), wide_args: false, args_cap_per_var: 2, max_arg_maps: 8, keep: None, seeds: qgen::skeletons(), ir_var_types_fallback: false, extra: vec![], only_datasets: None }
     }
 }
 
@@ -127,6 +131,7 @@ pub struct CorpusStats {
     pub capped: bool,
     pub queries_done: u64,
     pub queries_total: u64,
+    pub extra: Vec<(String, CorpusStats)>,
 }
 
 impl CorpusStats {
@@ -144,6 +149,7 @@ impl CorpusStats {
             "time_cap_hit": self.capped,
             "queries_processed": self.queries_done,
             "queries_enumerated": self.queries_total,
+            "further_spaces": self.extra.iter().map(|(k, v)| (k.clone(), v.to_json())).collect::<BTreeMap<_, _>>(),
         })
     }
 }
@@ -229,7 +235,7 @@ pub fn drive(
         arg_maps.truncate(cfg.max_arg_maps);
         let cq = CompiledQuery { q: q.clone(), text, iq, var_types, arg_maps, layer: li };
         per_query(&cq);
-        for ds in &uni.datasets {
+        for ds in uni.datasets.iter().filter(|d| cfg.only_datasets.as_ref().map(|n| n.iter().any(|x| *x == d.name)).unwrap_or(true)) {
             for args in &cq.arg_maps {
                 cases.fetch_add(1, Ordering::Relaxed);
                 per_case(&Case { cq: &cq, ds, args });
@@ -296,7 +302,26 @@ pub fn drive(
     stats.rejected_kinds = kinds.into_inner().unwrap();
     stats.frontend_panic_keys = pkeys.into_inner().unwrap();
     stats.distinct_ir = irs.into_inner().unwrap().len() as u64;
+    for (label, sub) in &cfg.extra {
+        if ctx.elapsed() > budget {
+            stats.capped = true;
+            break;
+        }
+        let st = drive(ctx, uni, sub, per_query, per_case, on_frontend_panic);
+        stats.cases += st.cases;
+        stats.capped |= st.capped;
+        stats.extra.push((label.to_string(), st));
+    }
     stats
+}
+
+/// Two-edge structures + one deviation of any kind (all operators with variables and tags, counts,
+/// coercions, outputs): every single feature placed into every two-edge arrangement.
+pub fn structures_any_cfg(uni: &Universe) -> CorpusCfg {
+    let mut cfg = structures_cfg(uni, 1, vec!["C", "Po", "Pf", "Px", "Pt", "Fco", "Fcf", "Fct"], 0);
+    cfg.gen.allow = Some(vec!["C", "Po", "Pf", "Px", "Pt", "Fco", "Fcf", "Fct"]);
+    cfg.max_arg_maps = 2;
+    cfg
 }
 
 /// Replay support: rebuild a single case from a replay artefact.
